@@ -3517,7 +3517,7 @@ fn part_b_nlri(ctx: &mut Ctx, m: api::Nlri, fam: Family, how: &str) {
     ctx.rep.eval();
     let m_s = trunc(format!("{:?}", m));
     let fname = fam_name(fam);
-    ctx.rep.count(&format!("b:nlri-in:{}", how));
+    ctx.rep.count(&format!("b:nlri-in:{}", how.split('/').next().unwrap_or("")));
     let n = match guard(|| net_from_api(m.clone(), fam)) {
         Err(p) => {
             let w = Json::obj(vec![("api", Json::s(m_s)), ("family", Json::s(fname))]);
@@ -3526,17 +3526,27 @@ fn part_b_nlri(ctx: &mut Ctx, m: api::Nlri, fam: Family, how: &str) {
         }
         Ok(Err(_)) => {
             ctx.rep.count("b:nlri-rejected");
+            if let Some(k) = how.strip_prefix("boundary/") {
+                ctx.rep.count(&format!("b:boundary:rejected:{}", k.split(':').next().unwrap_or("")));
+            }
             return;
         }
         Ok(Ok(n)) => n,
     };
     ctx.rep.count("b:nlri-accepted");
     ctx.rep.count(&format!("b:nlri-accepted:{}", fname));
+    if let Some(k) = how.strip_prefix("boundary/") {
+        ctx.rep.count(&format!("b:boundary:accepted:{}", k.split(':').next().unwrap_or("")));
+    }
     ctx.rep.nontrivial(fnv64(format!("{}|{}", fname, m_s).as_bytes()));
     let bad = validate_nlri(fam, &n);
     let wire_valid = bad.is_empty();
     let attrs = Arc::new(base_attrs());
     let ur = use_value(ctx, fam, &n, nh_for(fam), &attrs, wire_valid);
+    if how.starts_with("boundary/") && wire_valid && ur.panics.is_empty() && ur.wire.is_none() {
+        // encoded by encode_to / encode_to_bytes under guard and decoded back equal
+        ctx.rep.count("b:boundary:accepted-encoded-and-decoded-equal");
+    }
     let consequences: Vec<String> = {
         let mut v: Vec<String> = Vec::new();
         for (stage, p) in ur.panics.iter() {
@@ -3597,6 +3607,7 @@ fn run_part_b_nlri(ctx: &mut Ctx, r: &mut Rng, n: u64) {
     let pfx = |s: &str, l: u32| api::Nlri {
         nlri: Some(api::nlri::Nlri::Prefix(api::IpAddressPrefix { prefix: s.into(), prefix_len: l })),
     };
+    run_part_b_boundary(ctx);
     part_b_nlri(ctx, api::Nlri { nlri: None }, Family::IPV4, "directed");
     part_b_nlri(ctx, pfx("10.0.0.0", 33), Family::IPV4, "directed");
     part_b_nlri(ctx, pfx("10.0.0.0", 256 + 8), Family::IPV4, "directed");
@@ -3803,10 +3814,16 @@ fn build_sc_case(ctx: &mut Ctx, r: &mut Rng, fam: Family) -> Option<ScCase> {
 }
 
 fn list_global(rt: &tokio::runtime::Runtime, svc: &GrpcService, fam: Family) -> Result<Vec<api::Destination>, String> {
+    list_global_opt(rt, svc, fam, false)
+}
+
+/// `binary`: also ask for `nlri_binary`, which makes the real handler run the NLRI wire encoder
+fn list_global_opt(rt: &tokio::runtime::Runtime, svc: &GrpcService, fam: Family, binary: bool) -> Result<Vec<api::Destination>, String> {
     rt.block_on(async {
         let req = tonic::Request::new(api::ListPathRequest {
             table_type: api::TableType::Global as i32,
             family: Some(family_to_api(fam)),
+            enable_nlri_binary: binary,
             ..Default::default()
         });
         let resp = svc.list_path(req).await.map_err(|e| format!("list_path status {:?}: {}", e.code(), e.message()))?;
@@ -3982,8 +3999,8 @@ fn run_part_c(ctx: &mut Ctx, r: &mut Rng, n: u64) {
             return;
         }
     };
+    run_part_c_boundary(ctx, &rt);
     let mut svc = make_service();
-    // the repo's own example first (ipv4, ORIGIN + NEXT_HOP)
     for i in 0..n {
         if !ctx.rep.in_budget() {
             break;
@@ -4008,6 +4025,382 @@ fn run_part_c(ctx: &mut Ctx, r: &mut Rng, n: u64) {
             continue;
         };
         if !part_c_case(ctx, &rt, &svc, case) {
+            svc = make_service();
+        }
+    }
+}
+
+// ------------------------------------------------------------------ NLRIs at and around their size limits
+
+fn b_rd() -> Option<api::RouteDistinguisher> {
+    Some(api::RouteDistinguisher {
+        rd: Some(api::route_distinguisher::Rd::TwoOctetAsn(api::RouteDistinguisherTwoOctetAsn { admin: 65000, assigned: 1 })),
+    })
+}
+
+/// address string with only the ceil(len/8) leading octets set (the canonical form)
+fn b_addr(v6: bool, len: u32) -> String {
+    let n = (len as usize).div_ceil(8);
+    if v6 {
+        let mut o = Ipv6Addr::from(0x2001_0db8_85a3_08d3_1319_8a2e_0370_7344u128).octets();
+        if n < 16 {
+            o[n..].fill(0);
+        }
+        Ipv6Addr::from(o).to_string()
+    } else {
+        let mut o = [10u8, 129, 66, 35];
+        if n < 4 {
+            o[n..].fill(0);
+        }
+        Ipv4Addr::from(o).to_string()
+    }
+}
+
+fn b_labels(n: u32) -> Vec<u32> {
+    (0..n).map(|i| 16 + i).collect()
+}
+
+fn b_flowspec_rules(body_len: usize) -> Vec<api::FlowSpecRule> {
+    // one Port component: 1 type octet + operators of 2 octets (value <= 0xff) or 3 (value <= 0xffff)
+    let payload = body_len.saturating_sub(1);
+    let (n2, n3) = if payload % 2 == 0 { (payload / 2, 0) } else { (payload.saturating_sub(3) / 2, 1) };
+    let mut items: Vec<api::FlowSpecComponentItem> = Vec::new();
+    for _ in 0..n3 {
+        items.push(api::FlowSpecComponentItem { op: 0x01, value: 1000 });
+    }
+    for i in 0..n2 {
+        items.push(api::FlowSpecComponentItem { op: 0x01, value: (i % 200) as u64 });
+    }
+    if let Some(l) = items.last_mut() {
+        l.op |= 0x80;
+    }
+    vec![api::FlowSpecRule {
+        rule: Some(api::flow_spec_rule::Rule::Component(api::FlowSpecComponent { r#type: 4, items })),
+    }]
+}
+
+/// (API NLRI, family, "kind:target") — every NLRI kind whose length lives in one octet
+/// (or 12 bits for flowspec) at its limit, one step below / above it, and one label
+/// (24 bits) below / above it; plus the largest prefix lengths and field values.
+fn boundary_api_nlris() -> Vec<(api::Nlri, Family, String)> {
+    use api::nlri::Nlri as N;
+    let mut out: Vec<(api::Nlri, Family, String)> = Vec::new();
+    let targets: [u32; 8] = [255 - 24, 254, 255, 256, 257, 256 + 24, 255 - 48, 256 + 48];
+    for (kind, fam, v6, extra, vpn) in [
+        ("vpn4", Family::IPV4_VPN, false, 64u32, true),
+        ("vpn6", Family::IPV6_VPN, true, 64u32, true),
+        ("lu4", Family::IPV4_MPLS, false, 0u32, false),
+        ("lu6", Family::IPV6_MPLS, true, 0u32, false),
+    ] {
+        let maxlen: u32 = if v6 { 128 } else { 32 };
+        let mut combos: Vec<(u32, u32, String)> = Vec::new();
+        // every (depth, length) pair that encodes to a target bit length
+        for t in targets {
+            for l in 1..=11u32 {
+                let fixed = 24 * l + extra;
+                if t >= fixed && t - fixed <= maxlen {
+                    combos.push((l, t - fixed, format!("bits={}", t)));
+                }
+            }
+        }
+        // depth 1..=11 with the shortest / longest / just-too-long prefix
+        for l in 1..=11u32 {
+            for len in [0, maxlen - 1, maxlen, maxlen + 1] {
+                combos.push((l, len, if len > maxlen { "len>max".into() } else { "grid".into() }));
+            }
+        }
+        combos.push((0, maxlen, "no-label".into()));
+        combos.push((12, 0, "grid".into()));
+        for (l, len, tag) in combos {
+            let m = if vpn {
+                N::LabeledVpnIpPrefix(api::LabeledVpnipAddressPrefix {
+                    labels: b_labels(l),
+                    rd: b_rd(),
+                    prefix_len: len,
+                    prefix: b_addr(v6, len.min(maxlen)),
+                })
+            } else {
+                N::LabeledPrefix(api::LabeledIpAddressPrefix {
+                    labels: b_labels(l),
+                    prefix_len: len,
+                    prefix: b_addr(v6, len.min(maxlen)),
+                })
+            };
+            out.push((api::Nlri { nlri: Some(m) }, fam, format!("{}:{}", kind, tag)));
+        }
+    }
+    // plain prefixes
+    for (fam, v6) in [(Family::IPV4, false), (Family::IPV6, true), (Family::IPV4_MC, false), (Family::IPV6_MC, true)] {
+        let maxlen: u32 = if v6 { 128 } else { 32 };
+        for len in [0, maxlen - 1, maxlen, maxlen + 1, 255, 256] {
+            out.push((
+                api::Nlri {
+                    nlri: Some(N::Prefix(api::IpAddressPrefix { prefix_len: len, prefix: b_addr(v6, len.min(maxlen)) })),
+                },
+                fam,
+                format!("prefix:len={}", if len > maxlen { "over".to_string() } else { "in".to_string() }),
+            ));
+        }
+    }
+    // flowspec: the 1-octet / 2-octet length switch at 240 and the 12-bit limit 4095
+    for (kind, fam, vpn) in [
+        ("fs4", Family::IPV4_FLOWSPEC, false),
+        ("fs6", Family::IPV6_FLOWSPEC, false),
+        ("fsvpn4", Family::IPV4_FLOWSPEC_VPN, true),
+        ("fsvpn6", Family::IPV6_FLOWSPEC_VPN, true),
+    ] {
+        for t in [237usize, 238, 239, 240, 241, 242, 243, 4092, 4093, 4094, 4095, 4096, 4097, 4098, 4200] {
+            // for the VPN flavours the RD (8 octets) is part of the NLRI body
+            let body = if vpn { t.saturating_sub(8) } else { t };
+            let rules = b_flowspec_rules(body);
+            let m = if vpn {
+                N::VpnFlowSpec(api::VpnFlowSpecNlri { rd: b_rd(), rules })
+            } else {
+                N::FlowSpec(api::FlowSpecNlri { rules })
+            };
+            out.push((api::Nlri { nlri: Some(m) }, fam, format!("{}:len={}", kind, t)));
+        }
+    }
+    // EVPN: longest routes and field limits
+    let esi = || Some(api::EthernetSegmentIdentifier { r#type: 0, value: vec![1, 2, 3, 4, 5, 6, 7, 8, 9] });
+    for (l1, l2, tag) in [(0x00ff_ffffu32, 0x00ff_ffffu32, "label=max"), (0x0100_0000, 5, "label=over"), (5, 0x0100_0000, "label=over")] {
+        for ip in ["", "192.0.2.1", "2001:db8::1"] {
+            out.push((
+                api::Nlri {
+                    nlri: Some(N::EvpnMacadv(api::EvpnmacipAdvertisementRoute {
+                        rd: b_rd(),
+                        esi: esi(),
+                        ethernet_tag: u32::MAX,
+                        mac_address: "ff:ff:ff:ff:ff:ff".into(),
+                        ip_address: ip.into(),
+                        labels: vec![l1, l2],
+                    })),
+                },
+                Family::L2VPN_EVPN,
+                format!("evpn:{}", tag),
+            ));
+        }
+    }
+    for (v6, len) in [(false, 0u32), (false, 32), (false, 33), (true, 128), (true, 129), (true, 255), (false, 128)] {
+        let maxlen = if v6 { 128 } else { 32 };
+        out.push((
+            api::Nlri {
+                nlri: Some(N::EvpnIpPrefix(api::EvpnipPrefixRoute {
+                    rd: b_rd(),
+                    esi: esi(),
+                    ethernet_tag: u32::MAX,
+                    ip_prefix: b_addr(v6, 128),
+                    ip_prefix_len: len,
+                    gw_address: if v6 { "2001:db8::fe".into() } else { "192.0.2.254".into() },
+                    label: 0x00ff_ffff,
+                })),
+            },
+            Family::L2VPN_EVPN,
+            format!("evpn:type5-len={}", if len > maxlen { "over" } else { "in" }),
+        ));
+    }
+    for label in [0x00ff_ffffu32, 0x0100_0000] {
+        out.push((
+            api::Nlri {
+                nlri: Some(N::EvpnEthernetAd(api::EvpnEthernetAutoDiscoveryRoute { rd: b_rd(), esi: esi(), ethernet_tag: u32::MAX, label })),
+            },
+            Family::L2VPN_EVPN,
+            format!("evpn:{}", if label > 0x00ff_ffff { "label=over" } else { "label=max" }),
+        ));
+    }
+    // MUP: prefix lengths and the T2ST endpoint length (address + 0..=32 TEID bits)
+    for (fam, v6) in [(Family::IPV4_MUP, false), (Family::IPV6_MUP, true)] {
+        let maxlen: u32 = if v6 { 128 } else { 32 };
+        let ep = if v6 { "2001:db8::2" } else { "192.0.2.2" };
+        for len in [0, maxlen - 1, maxlen, maxlen + 1, 255] {
+            let tag = format!("mup:prefix-len={}", if len > maxlen { "over" } else { "in" });
+            out.push((
+                api::Nlri {
+                    nlri: Some(N::MupInterworkSegmentDiscovery(api::MupInterworkSegmentDiscoveryRoute {
+                        rd: b_rd(),
+                        prefix: format!("{}/{}", b_addr(v6, len.min(maxlen)), len),
+                    })),
+                },
+                fam,
+                tag.clone(),
+            ));
+            #[allow(deprecated)]
+            out.push((
+                api::Nlri {
+                    nlri: Some(N::MupType1SessionTransformed(api::MupType1SessionTransformedRoute {
+                        rd: b_rd(),
+                        prefix_length: 0,
+                        prefix: format!("{}/{}", b_addr(v6, len.min(maxlen)), len),
+                        teid: u32::MAX,
+                        qfi: 255,
+                        endpoint_address_length: maxlen,
+                        endpoint_address: ep.into(),
+                        source_address_length: maxlen,
+                        source_address: ep.into(),
+                    })),
+                },
+                fam,
+                tag,
+            ));
+        }
+        for extra in [0u32, 8, 24, 31, 32, 33, 64] {
+            let (len, teid) = (maxlen + extra, if extra == 0 { 0 } else { u32::MAX << (32 - 8 * extra.min(32).div_ceil(8)) });
+            out.push((
+                api::Nlri {
+                    nlri: Some(N::MupType2SessionTransformed(api::MupType2SessionTransformedRoute {
+                        rd: b_rd(),
+                        endpoint_address_length: len,
+                        endpoint_address: ep.into(),
+                        teid,
+                    })),
+                },
+                fam,
+                format!("mup:t2st-len={}", if extra > 32 { "over" } else { "in" }),
+            ));
+        }
+        out.push((
+            api::Nlri {
+                nlri: Some(N::MupType2SessionTransformed(api::MupType2SessionTransformedRoute {
+                    rd: b_rd(),
+                    endpoint_address_length: maxlen - 1,
+                    endpoint_address: ep.into(),
+                    teid: 0,
+                })),
+            },
+            fam,
+            "mup:t2st-len=under".into(),
+        ));
+    }
+    out
+}
+
+fn run_part_b_boundary(ctx: &mut Ctx) {
+    for (m, fam, tag) in boundary_api_nlris() {
+        ctx.rep.count(&format!("b:boundary-in:{}", tag));
+        ctx.rep.count(&format!("b:boundary-in-kind:{}", tag.split(':').next().unwrap_or("")));
+        part_b_nlri(ctx, m, fam, &format!("boundary/{}", tag));
+    }
+}
+
+/// The same limit cases through the real add_path / list_path(with nlri_binary) / delete_path.
+fn run_part_c_boundary(ctx: &mut Ctx, rt: &tokio::runtime::Runtime) {
+    let mut svc = make_service();
+    for (m, fam, tag) in boundary_api_nlris() {
+        ctx.rep.eval();
+        let fname = fam_name(fam);
+        let kind = tag.split(':').next().unwrap_or("").to_string();
+        ctx.rep.count(&format!("c:boundary-in-kind:{}", kind));
+        let mut pattrs = vec![api_origin(0)];
+        if fam == Family::IPV4 {
+            pattrs.push(api_next_hop("192.0.2.1"));
+        } else if !is_flowspec(fam) {
+            pattrs.push(api_mp_reach(Some(fam), vec![if is_v6_family(fam) { "2001:db8::1".into() } else { "192.0.2.1".into() }]));
+        }
+        let path = api::Path { nlri: Some(m.clone()), pattrs, family: Some(family_to_api(fam)), ..Default::default() };
+        let desc = trunc(format!("{:?}", path));
+        let wit = |extra: Vec<(&str, Json)>| {
+            let mut v = vec![("family", Json::s(fname.clone())), ("limit_case", Json::s(tag.clone())), ("submitted", Json::s(desc.clone()))];
+            v.extend(extra);
+            Json::obj(v)
+        };
+        let added = guard(|| {
+            rt.block_on(async {
+                svc.add_path(tonic::Request::new(api::AddPathRequest { table_type: api::TableType::Global as i32, vrf_id: String::new(), path: Some(path) }))
+                    .await
+            })
+        });
+        let uuid = match added {
+            Err(p) => {
+                let w = wit(vec![]);
+                ctx.panic_violation("GrpcService::add_path", &p, w);
+                svc = make_service();
+                continue;
+            }
+            Ok(Err(_)) => {
+                ctx.rep.count(&format!("c:boundary:rejected:{}", kind));
+                continue;
+            }
+            Ok(Ok(r)) => r.into_inner().uuid,
+        };
+        ctx.rep.count(&format!("c:boundary:stored:{}", kind));
+        ctx.rep.nontrivial(fnv64(desc.as_bytes()));
+        // what was stored must be a value the wire can carry
+        let internal = match guard(|| net_from_api(m.clone(), fam)) {
+            Ok(Ok(n)) => Some(n),
+            _ => None,
+        };
+        if let Some(n) = &internal {
+            for (rule, detail) in validate_nlri(fam, n) {
+                ctx.rep.violation(
+                    &format!("C17/store-show/{}/unrepresentable-nlri-stored/{}", fname, rule),
+                    &format!("add_path stores an NLRI the wire cannot carry: {}", detail),
+                    wit(vec![("stored_as", Json::s(nlri_dbg(n)))]),
+                );
+            }
+        }
+        let mut ok = true;
+        match guard(|| list_global_opt(rt, &svc, fam, true)) {
+            Err(p) => {
+                let w = wit(vec![]);
+                ctx.panic_violation("GrpcService::list_path(enable_nlri_binary)", &p, w);
+                svc = make_service();
+                continue;
+            }
+            Ok(Err(e)) => {
+                ctx.rep.violation(&format!("C17/store-show/{}/list-error", fname), &e, wit(vec![]));
+                ok = false;
+            }
+            Ok(Ok(l)) => {
+                let paths: Vec<&api::Path> = l.iter().flat_map(|d| d.paths.iter()).collect();
+                if paths.len() != 1 {
+                    ctx.rep.violation(
+                        &format!("C17/store-show/{}/path-count", fname),
+                        &format!("after one add_path on an empty table list_path shows {} paths", paths.len()),
+                        wit(vec![]),
+                    );
+                    ok = false;
+                } else {
+                    let lp = paths[0];
+                    if lp.nlri.as_ref() != Some(&m) {
+                        ctx.rep.violation(
+                            &format!("C17/store-show/{}/nlri", fname),
+                            "the listed NLRI differs from the submitted (canonical) one",
+                            wit(vec![("listed", Json::s(trunc(format!("{:?}", lp.nlri))))]),
+                        );
+                    }
+                    // nlri_binary is the wire form: the decoder must give the stored value back
+                    if let Some(n) = &internal {
+                        let msg = build_update(fam, &Nh::None, &lp.nlri_binary, &base_wattrs(&mut Rng::new(1)));
+                        let msg = if fam == Family::IPV4 {
+                            build_update(fam, &Nh::V4(Ipv4Addr::new(192, 0, 2, 1)), &lp.nlri_binary, &base_wattrs(&mut Rng::new(1)))
+                        } else if is_flowspec(fam) {
+                            msg
+                        } else {
+                            build_update(fam, &Nh::V6("2001:db8::1".parse().unwrap()), &lp.nlri_binary, &base_wattrs(&mut Rng::new(1)))
+                        };
+                        let mut c = new_codec(false);
+                        match decode_update(&mut c, &msg) {
+                            Ok(d) if d.n_err == 0 && d.entries.len() == 1 && &d.entries[0].nlri == n => {
+                                ctx.rep.count("c:boundary:nlri-binary-decodes-equal");
+                            }
+                            other => {
+                                let why = match other {
+                                    Ok(d) => format!("decodes to {} entries / {:?}", d.entries.len(), d.entries.first().map(|e| nlri_dbg(&e.nlri))),
+                                    Err(e) => e,
+                                };
+                                ctx.rep.violation(
+                                    &format!("C17/store-show/{}/nlri-binary", fname),
+                                    &format!("the wire form shown by list_path does not decode to the stored NLRI: {}", trunc(why)),
+                                    wit(vec![("nlri_binary", Json::s(trunc(hex(&lp.nlri_binary))))]),
+                                );
+                            }
+                        }
+                    }
+                }
+            }
+        }
+        let del = guard(|| rt.block_on(async { svc.delete_path(tonic::Request::new(api::DeletePathRequest { uuid, ..Default::default() })).await }));
+        if !ok || !matches!(del, Ok(Ok(_))) {
             svc = make_service();
         }
     }
